@@ -1,4 +1,5 @@
 import GV.Gen.Preserve
+import GV.Gen.G10bTypes
 /-
   C01 — which decoded objects re-serialise to their stored bytes, derived from the table the
   extractor regenerates from the Go source on every run (`GV.Gen.Preserve`: MarshalCBOR
@@ -19,18 +20,22 @@ def preserves : Nat → String → Bool
       | some es => es.any (preserves fuel)
       | none => false
 
-def cap (s : String) : String :=
-  match s.toList with
-  | [] => s
-  | c :: cs => String.ofList (c.toUpper :: cs)
-
-/-- Go type of a decoded block / block header of an era -/
-def typeOf (kind era : String) : String :=
-  if era = "byron" then (if kind = "blk" then "byron.ByronMainBlock" else "byron.ByronMainBlockHeader")
-  else era ++ "." ++ cap era ++ (if kind = "blk" then "Block" else "BlockHeader")
+/-- Go type of a decoded block / header / transaction body / witness set of an era, as the
+    running code reports it (`GV.Gen.G10bTypes`, dumped by reflection on every run) -/
+def typeOf (kind era : String) : Option String := GV.Gen.G10bTypes.types.lookup (kind, era)
 
 def eras : List String := ["byron", "shelley", "allegra", "mary", "alonzo", "babbage", "conway", "dijkstra"]
 
-def preservesKind (kind era : String) : Bool := preserves 4 (typeOf kind era)
+def preservesKind (kind era : String) : Bool :=
+  match typeOf kind era with
+  | some t => preserves 4 t
+  | none => false
+
+/-- a (kind, era) whose decoded type exists and does NOT return its stored bytes on
+    re-serialisation (the recorded finding classes `reencode-body`, `reencode-wit`) -/
+def lossyKind (kind era : String) : Bool :=
+  match typeOf kind era with
+  | some t => !preserves 4 t
+  | none => false
 
 end GV.Model.PreserveTypes
